@@ -138,7 +138,13 @@ Section TRSO.
     let ordering := filter (fun n => negb (is_transport_node n)) ordering0 in
     let exprs := map (fun node => match index_nat node ordering with
                                   | None => EErr ValueError
-                                  | Some i => prob_safe (Some (V (tdom q))) [] (Some ([V node], upgrade_ordering (Vs (firstn i ordering)))) [] None
+                                  | Some i =>
+                                      (* repaired: the conditionals of the distribution the recursion carries - written down directly while that is
+                                         (a marginal of) the joint, derived from it once an earlier line 10 has replaced it by a c-factor *)
+                                      if is_marginal_of_joint (texpr q)
+                                      then prob_safe (Some (V (tdom q))) [] (Some ([V node], upgrade_ordering (Vs (firstn i ordering)))) [] None
+                                      else truediv (sum_safe (texpr q) (Vs (skipn (S i) ordering)) false)
+                                                   (sum_safe (texpr q) (Vs (node :: skipn (S i) ordering)) false)
                                   end) district in
     mkTq (inter (tX q) district) (tY q) (canon (prod_safe exprs)) (tact q) (tdom q)
          (update (tdom q) (subgraph g district) (tgraphs q)) new_surr.
